@@ -37,7 +37,13 @@ InnerS == Blk(<<L(FALSE)>>, Body([w |-> A(FALSE) @@ [addr |-> AddrA(<< <<"static
           @@ [addr |-> AddrB(<< <<"static", "inn">>, <<"label", 0>> >>, "inner", TRUE, "", TRUE, FALSE, FALSE)]
 OuterS == Blk(<<>>, Body(EmptyFn, [innerb |-> InnerS], NoExt), <<>>)
 
-Schemas == { s \in { Body([plain |-> A(FALSE)], [var |-> VarS, res |-> ResS(un), loc |-> LocS(r, t), mod |-> ModS, byval |-> ByValS(o), outer |-> OuterS], NoExt)
+\* (C19) dynamic blocks in a body without dependency keys; a dependent body selected in two steps (label, then attribute)
+DynS == Blk(<<L(FALSE)>>, Body([title |-> A(FALSE)], [setting |-> Blk(<<>>, Body([key |-> A(FALSE)], EmptyFn, NoExt), <<>>)], [count |-> FALSE, forEach |-> FALSE, dyn |-> TRUE]), <<>>)
+SelS == Sel @@ [cons |-> [k |-> "lit", t |-> "string"]]   \* (a JSON string under a reference-admitting constraint IS a reference)
+RemS == Blk(<<L(TRUE), L(FALSE)>>, Body([enabled |-> A(FALSE)], EmptyFn, NoExt),
+            << [lk |-> << <<0, "rs">> >>, ak |-> <<>>, body |-> Body([backend |-> SelS, workspace |-> A(FALSE)], EmptyFn, NoExt)],
+               [lk |-> << <<0, "rs">> >>, ak |-> << <<"backend", Str("s3")>> >>, body |-> Body([backend |-> SelS, bucket |-> A(FALSE)], EmptyFn, NoExt)] >>)
+Schemas == { s \in { Body([plain |-> A(FALSE)], [var |-> VarS, res |-> ResS(un), loc |-> LocS(r, t), mod |-> ModS, byval |-> ByValS(o), outer |-> OuterS, dyn |-> DynS, rem |-> RemS], NoExt)
              : un \in BOOLEAN, r \in BOOLEAN, t \in BOOLEAN, o \in BOOLEAN } :
              s.blocks["loc"].body.anyaddr.asRef \/ s.blocks["loc"].body.anyaddr.asType }   \* (an address schema needs at least one of the two)
 
@@ -57,6 +63,10 @@ Pool == { B("var", <<"a">>, <<AtV("type", Ty("string"))>>), B("var", <<"b">>, <<
           B("byval", <<>>, <<AtV("name", Str("n1"))>>), B("byval", <<>>, <<>>), B("byval", <<>>, <<AtV("name", [k |-> "num", v |-> "5"])>>),
           B("outer", <<>>, <<B("innerb", <<"k">>, <<AtV("w", Str("s"))>>), B("innerb", <<>>, <<>>)>>),
           B("outer", <<>>, <<B("innerb", <<"k2">>, <<AtV("kwa", [k |-> "kw", v |-> "kw"])>>)>>),
+          B("dyn", <<"d1">>, <<At("title"), B("dynamic", <<"setting">>, <<AtV("for_each", ListV), B("content", <<>>, <<At("key")>>)>>)>>),
+          B("dyn", <<"d2">>, <<B("setting", <<>>, <<At("key")>>)>>),
+          B("rem", <<"rs", "partial">>, <<At("enabled"), AtV("backend", Str("local")), At("workspace")>>),
+          B("rem", <<"rs", "full">>, <<AtV("backend", Str("s3")), At("bucket")>>),
           B("zz", <<"q">>, <<At("x")>>), At("plain"), At("unknown_attr") }
 NoDupAttr(d) == \A i, j \in DOMAIN d : d[i].k = "attr" /\ d[j].k = "attr" /\ d[i].name = d[j].name => i = j
 Docs == { d \in UNION { [1..n -> Pool] : n \in 0..MaxItems } : NoDupAttr(d) }
